@@ -29,117 +29,7 @@ func New(fs absfs.SymlinkFileSystem, options ExportOptions) (*AbsfsNFS, error) {
 	}
 
 	// Set default values if not specified
-	if options.TransferSize <= 0 {
-		options.TransferSize = 65536 // Default: 64KB
-	}
-
-	// Set attribute cache defaults
-	if options.AttrCacheTimeout <= 0 {
-		options.AttrCacheTimeout = 5 * time.Second
-	}
-
-	if options.AttrCacheSize <= 0 {
-		options.AttrCacheSize = 10000
-	}
-
-	// Set negative cache defaults
-	if options.NegativeCacheTimeout <= 0 {
-		options.NegativeCacheTimeout = 5 * time.Second
-	}
-
-	// Set directory cache defaults
-	if options.DirCacheTimeout <= 0 {
-		options.DirCacheTimeout = 10 * time.Second
-	}
-
-	if options.DirCacheMaxEntries <= 0 {
-		options.DirCacheMaxEntries = 1000
-	}
-
-	if options.DirCacheMaxDirSize <= 0 {
-		options.DirCacheMaxDirSize = 10000
-	}
-
-	// Set worker pool defaults
-	if options.MaxWorkers <= 0 {
-		options.MaxWorkers = runtime.NumCPU() * 4 // Default: number of logical CPUs * 4
-	}
-
-	// Connection management defaults
-	if options.MaxConnections <= 0 {
-		options.MaxConnections = 100 // Default: 100 concurrent connections
-	}
-
-	if options.IdleTimeout <= 0 {
-		options.IdleTimeout = 5 * time.Minute // Default: 5 minutes
-	}
-
-	// Set TCP socket options defaults if they haven't been explicitly configured
-	// We're checking if the options struct was created with fields vs. default values
-	if !options.hasExplicitTCPSettings {
-		options.TCPKeepAlive = true // Default: enabled
-		options.TCPNoDelay = true   // Default: enabled
-	}
-
-	if options.SendBufferSize <= 0 {
-		options.SendBufferSize = 262144 // Default: 256KB
-	}
-
-	if options.ReceiveBufferSize <= 0 {
-		options.ReceiveBufferSize = 262144 // Default: 256KB
-	}
-
-	// Provide default rate limit config if none specified.
-	// EnableRateLimiting controls whether rate limiting is active;
-	// it defaults to false (Go zero value) and is never overridden here.
-	if options.RateLimitConfig == nil {
-		config := DefaultRateLimiterConfig()
-		options.RateLimitConfig = &config
-	}
-
-	// Set timeout defaults if not specified
-	if options.Timeouts == nil {
-		options.Timeouts = &TimeoutConfig{
-			ReadTimeout:    30 * time.Second,
-			WriteTimeout:   60 * time.Second,
-			LookupTimeout:  10 * time.Second,
-			ReaddirTimeout: 30 * time.Second,
-			CreateTimeout:  15 * time.Second,
-			RemoveTimeout:  15 * time.Second,
-			RenameTimeout:  20 * time.Second,
-			HandleTimeout:  5 * time.Second,
-			DefaultTimeout: 30 * time.Second,
-		}
-	} else {
-		// Fill in any zero values with defaults
-		if options.Timeouts.ReadTimeout <= 0 {
-			options.Timeouts.ReadTimeout = 30 * time.Second
-		}
-		if options.Timeouts.WriteTimeout <= 0 {
-			options.Timeouts.WriteTimeout = 60 * time.Second
-		}
-		if options.Timeouts.LookupTimeout <= 0 {
-			options.Timeouts.LookupTimeout = 10 * time.Second
-		}
-		if options.Timeouts.ReaddirTimeout <= 0 {
-			options.Timeouts.ReaddirTimeout = 30 * time.Second
-		}
-		if options.Timeouts.CreateTimeout <= 0 {
-			options.Timeouts.CreateTimeout = 15 * time.Second
-		}
-		if options.Timeouts.RemoveTimeout <= 0 {
-			options.Timeouts.RemoveTimeout = 15 * time.Second
-		}
-		if options.Timeouts.RenameTimeout <= 0 {
-			options.Timeouts.RenameTimeout = 20 * time.Second
-		}
-		if options.Timeouts.HandleTimeout <= 0 {
-			options.Timeouts.HandleTimeout = 5 * time.Second
-		}
-		if options.Timeouts.DefaultTimeout <= 0 {
-			options.Timeouts.DefaultTimeout = 30 * time.Second
-		}
-	}
+	options.applyDefaults()
 
 	// Create server object with configured caches
 	// Initialize structured logger
@@ -326,6 +216,124 @@ func (n *AbsfsNFS) GetExportOptions() ExportOptions {
 	return exportOptionsFromSnapshots(n.tuning.Load(), n.policy.Load())
 }
 
+// applyDefaults fills every numeric or duration field that is zero or negative,
+// and every nil pointer field that has a default, with the documented default.
+// It is used at construction and by the runtime update paths, so that a value
+// means the same whenever it is supplied.
+func (options *ExportOptions) applyDefaults() {
+	if options.TransferSize <= 0 {
+		options.TransferSize = 65536 // Default: 64KB
+	}
+
+	// Set attribute cache defaults
+	if options.AttrCacheTimeout <= 0 {
+		options.AttrCacheTimeout = 5 * time.Second
+	}
+
+	if options.AttrCacheSize <= 0 {
+		options.AttrCacheSize = 10000
+	}
+
+	// Set negative cache defaults
+	if options.NegativeCacheTimeout <= 0 {
+		options.NegativeCacheTimeout = 5 * time.Second
+	}
+
+	// Set directory cache defaults
+	if options.DirCacheTimeout <= 0 {
+		options.DirCacheTimeout = 10 * time.Second
+	}
+
+	if options.DirCacheMaxEntries <= 0 {
+		options.DirCacheMaxEntries = 1000
+	}
+
+	if options.DirCacheMaxDirSize <= 0 {
+		options.DirCacheMaxDirSize = 10000
+	}
+
+	// Set worker pool defaults
+	if options.MaxWorkers <= 0 {
+		options.MaxWorkers = runtime.NumCPU() * 4 // Default: number of logical CPUs * 4
+	}
+
+	// Connection management defaults
+	if options.MaxConnections <= 0 {
+		options.MaxConnections = 100 // Default: 100 concurrent connections
+	}
+
+	if options.IdleTimeout <= 0 {
+		options.IdleTimeout = 5 * time.Minute // Default: 5 minutes
+	}
+
+	// Set TCP socket options defaults if they haven't been explicitly configured
+	// We're checking if the options struct was created with fields vs. default values
+	if !options.hasExplicitTCPSettings {
+		options.TCPKeepAlive = true // Default: enabled
+		options.TCPNoDelay = true   // Default: enabled
+	}
+
+	if options.SendBufferSize <= 0 {
+		options.SendBufferSize = 262144 // Default: 256KB
+	}
+
+	if options.ReceiveBufferSize <= 0 {
+		options.ReceiveBufferSize = 262144 // Default: 256KB
+	}
+
+	// Provide default rate limit config if none specified.
+	// EnableRateLimiting controls whether rate limiting is active;
+	// it defaults to false (Go zero value) and is never overridden here.
+	if options.RateLimitConfig == nil {
+		config := DefaultRateLimiterConfig()
+		options.RateLimitConfig = &config
+	}
+
+	// Set timeout defaults if not specified
+	if options.Timeouts == nil {
+		options.Timeouts = &TimeoutConfig{
+			ReadTimeout:    30 * time.Second,
+			WriteTimeout:   60 * time.Second,
+			LookupTimeout:  10 * time.Second,
+			ReaddirTimeout: 30 * time.Second,
+			CreateTimeout:  15 * time.Second,
+			RemoveTimeout:  15 * time.Second,
+			RenameTimeout:  20 * time.Second,
+			HandleTimeout:  5 * time.Second,
+			DefaultTimeout: 30 * time.Second,
+		}
+	} else {
+		// Fill in any zero values with defaults
+		if options.Timeouts.ReadTimeout <= 0 {
+			options.Timeouts.ReadTimeout = 30 * time.Second
+		}
+		if options.Timeouts.WriteTimeout <= 0 {
+			options.Timeouts.WriteTimeout = 60 * time.Second
+		}
+		if options.Timeouts.LookupTimeout <= 0 {
+			options.Timeouts.LookupTimeout = 10 * time.Second
+		}
+		if options.Timeouts.ReaddirTimeout <= 0 {
+			options.Timeouts.ReaddirTimeout = 30 * time.Second
+		}
+		if options.Timeouts.CreateTimeout <= 0 {
+			options.Timeouts.CreateTimeout = 15 * time.Second
+		}
+		if options.Timeouts.RemoveTimeout <= 0 {
+			options.Timeouts.RemoveTimeout = 15 * time.Second
+		}
+		if options.Timeouts.RenameTimeout <= 0 {
+			options.Timeouts.RenameTimeout = 20 * time.Second
+		}
+		if options.Timeouts.HandleTimeout <= 0 {
+			options.Timeouts.HandleTimeout = 5 * time.Second
+		}
+		if options.Timeouts.DefaultTimeout <= 0 {
+			options.Timeouts.DefaultTimeout = 30 * time.Second
+		}
+	}
+}
+
 // UpdateExportOptions updates the server's export options at runtime.
 // Internally splits the incoming ExportOptions into tuning and policy changes.
 // Tuning changes apply immediately via atomic swap.
@@ -335,27 +343,24 @@ func (n *AbsfsNFS) UpdateExportOptions(newOptions ExportOptions) error {
 		return fmt.Errorf("nil server")
 	}
 
-	// Apply tuning changes (lock-free, immediate).
-	// Use tuningFromExportOptions for complete field coverage.
-	// Preserve Timeouts and Log from the current snapshot when not provided,
-	// since nil pointer fields would cause panics on NFS operations.
-	n.UpdateTuningOptions(func(t *TuningOptions) {
-		newTuning := tuningFromExportOptions(&newOptions)
-		if newTuning.Timeouts == nil {
-			newTuning.Timeouts = t.Timeouts
-		}
-		if newTuning.Log == nil {
-			newTuning.Log = t.Log
-		}
-		*t = *newTuning
-	})
-
-	// Validate immutable fields before attempting policy update.
+	// Validate immutable fields before changing anything: a rejected update
+	// must leave the whole configuration as it was.
 	// Squash cannot be changed at runtime.
 	currentPolicy := n.policy.Load()
 	if newOptions.Squash != "" && newOptions.Squash != currentPolicy.Squash {
 		return fmt.Errorf("cannot change Squash mode at runtime (requires restart)")
 	}
+
+	// Apply tuning changes (lock-free, immediate). Zero, negative and nil
+	// fields mean "default", exactly as at construction (UpdateTuningOptions
+	// normalizes them). Log is preserved from the current snapshot when not provided.
+	n.UpdateTuningOptions(func(t *TuningOptions) {
+		newTuning := tuningFromExportOptions(&newOptions)
+		if newTuning.Log == nil {
+			newTuning.Log = t.Log
+		}
+		*t = *newTuning
+	})
 
 	// Apply policy changes (drain-and-swap)
 	newPolicy := PolicyOptions{
@@ -371,6 +376,9 @@ func (n *AbsfsNFS) UpdateExportOptions(newOptions ExportOptions) error {
 	}
 	if newOptions.RateLimitConfig != nil {
 		rc := *newOptions.RateLimitConfig
+		newPolicy.RateLimitConfig = &rc
+	} else {
+		rc := DefaultRateLimiterConfig()
 		newPolicy.RateLimitConfig = &rc
 	}
 	if newOptions.TLS != nil {
